@@ -94,7 +94,13 @@ def decide(pid, tier, seed, replay, t0):
         except core.HarnessError:
             raise
         except Exception as e:  # source left the supported subset
-            tie_broken.append(f"translator {g.__name__}: {type(e).__name__}: {e}")
+            tie_broken.append(f"translator {g.__module__}: {type(e).__name__}: {e}")
+            # fall back to the baseline Gen file so that nothing stale from an earlier run is used
+            bdir = core.VERIF / "translate" / "baseline"
+            for bf in bdir.glob("*.lean"):
+                if g.__module__.split(".")[-1].replace("_", "") in bf.stem.lower().replace("_", "") or \
+                        bf.stem.lower() in g.__module__.replace("_", ""):
+                    core.write_if_changed(core.GEN / bf.name, bf.read_text())
 
     # 2. build --------------------------------------------------------------
     ok, log = core.lake_build(["jv-driver"])
